@@ -147,6 +147,10 @@ def _climb(rng):
     return p if not p.startswith('/') else '.' + p
 
 
+PCT_REFS = ['x%2525/y', '../%2525', '/p%252Fq/r', 'g?k=%2525', '?to=http%253A%252F%252Fb', '#f%2523', 'a%2Fb/%41',
+            'http://b/100%2525', 'https://u@h.x:8080/a/../%2525?k=%2526#%2523', 'http://example.com/%252e%252e/x']
+
+
 def _ref(rng):
     kind = rng.choice(['rel', 'rel', 'rel', 'climb', 'abs', 'abs', 'query', 'frag', 'empty', 'qf', 'url', 'marker'])
     if kind == 'marker' and rng.random() < 0.7:
@@ -224,8 +228,14 @@ def generate(rng, tier, n):
             yield {"base": b, "ref1": r1, "as_url1": rng.choice(AS_MODES), "ref2": r2,
                    "as_url2": rng.choice(AS_MODES), "unrooted": rng.random() < 0.15}
             continue
-        yield {"base": b, "ref1": _ref(rng), "as_url1": rng.choice(AS_MODES),
-               "ref2": _ref(rng), "as_url2": rng.choice(AS_MODES), "unrooted": rng.random() < 0.15}
+        c = {"base": b, "ref1": _ref(rng), "as_url1": rng.choice(AS_MODES),
+             "ref2": _ref(rng), "as_url2": rng.choice(AS_MODES), "unrooted": rng.random() < 0.15}
+        if rng.random() < 0.06:
+            # a reference whose decoded components contain '%': only meaningful as a URL OBJECT (what it
+            # denotes is what it prints; the text it was parsed from is not in normal form)
+            k = rng.choice(["1", "2"])
+            c["ref" + k], c["as_url" + k] = rng.choice(PCT_REFS), rng.choice([1, 1, 2, 5])
+        yield c
 
 
 def search(rng, tier, n, broken):
@@ -253,9 +263,11 @@ def run_impl(case):
                                   username=base.username, password=base.password)
     before = base.to_text()
     r1 = _as_arg(URL, case["ref1"], case["as_url1"])
+    ref1t = r1 if isinstance(r1, str) else r1.to_text()      # the reference as handed over
     n1 = base.navigate(r1)
     nav1 = n1.to_text()
     r2 = _as_arg(URL, case["ref2"], case["as_url2"])
+    ref2t = r2 if isinstance(r2, str) else r2.to_text()
     n2 = n1.navigate(r2)
     nav2 = n2.to_text()
     # independence: mutate everything reachable from the second result, re-read the first ...
@@ -275,7 +287,7 @@ def run_impl(case):
     ur.normalize()
     nr2 = ur.to_text()
     return {"before": before, "nav1": nav1, "nav1_again": nav1_again, "after": after, "nav2": nav2,
-            "nb1": nb1, "nb2": nb2, "nr1": nr1, "nr2": nr2}
+            "nb1": nb1, "nb2": nb2, "nr1": nr1, "nr2": nr2, "ref1t": ref1t, "ref2t": ref2t}
 
 
 def _as_arg(URL, text, mode):
@@ -327,7 +339,7 @@ def _codes(s):
     return clist(cN(ord(c)) for c in s)
 
 
-FIELDS = ["before", "nav1", "nav1_again", "after", "nav2", "nb1", "nb2", "nr1", "nr2"]
+FIELDS = ["before", "nav1", "nav1_again", "after", "nav2", "nb1", "nb2", "nr1", "nr2", "ref1t", "ref2t"]
 
 
 def to_coq(case, obs):
